@@ -474,7 +474,11 @@ class Ctx:
             return z3.BoolVal(False)
         if isinstance(v, SRef):
             bt = (v.pytype or '').split('<', 1)[0]
-            if bt in ('deque', 'list', 'dict', 'str', 'tuple', 'LockingDeque'):
+            if bt in ('deque', 'list'):
+                return z3.And(v.e != NONE, self.hget(v, '$len') > 0)        # a sequence is true iff it is not empty
+            if bt == 'LockingDeque':
+                return z3.And(v.e != NONE, self.hget(SRef(self.hget(v, 'deque'), 'deque'), '$len') > 0)   # via __len__
+            if bt in ('dict', 'str', 'tuple'):
                 raise Unsupported('truthiness of container %r' % (v,))
             if bt in ALWAYS_TRUE_TYPES or self._plain_object_type(bt):
                 return v.e != NONE
